@@ -47,6 +47,21 @@ CLAIMED = {
  "C20": dict(level="fault_enumeration", technique="fault injection with exhaustive enumeration of all crash points (every prefix length of the written cache file) + rapid-drawn corruptions; oracle: model of the source file, watchdog for termination",
    text="For generated books every prefix length of the written cache file (every crash point of the non-atomic save), plus missing / empty files and drawn bit flips, splices and garbage, is installed as the cache and a fresh initialisation (and a second one in the same process) must terminate without panic within the watchdog and yield exactly the book of the source file; a saved cache loaded back must equal the source-built book entry by entry.",
    note="Crash model: the file holds a prefix of a complete save. A corruption that still decodes as a different valid book is outside 'undecodable' and excluded (counted). A hang wedges the process (package-level mutex), so the worker exits and the driver confirms the in-flight case by replay.", ref="DESIGN.md §2 C20"),
+ "C05": dict(level="exploration", technique="property-based testing (rapid): generated game lines x limit modes x switch vectors x stop timings, 1-4 consecutive searches per engine instance; oracle: refchess legality of best / ponder move and of every PV",
+   text="Searches are run on generated game lines (repeated roots, half-move clocks up to 110) under every limit mode (depth, nodes, movetime, clock, infinite/ponder with generated stop / ponderhit timing) and drawn vectors over all search switches, several in a row on one instance so that hash and history tables carry over; every search must end within the watchdog, report exactly one result with a best move legal in the root, a ponder move legal after it, a final PV and per-iteration PVs that are playable legal sequences (final one starting with the best move), and leave the caller's position snapshot unchanged.",
+   note="Depth <= 4-6 and 1 MB hash by cost; the 30 s watchdog on millisecond searches is the termination oracle. Roots have >= 1 legal move.", ref="DESIGN.md §2 C05"),
+ "C06": dict(level="exploration", technique="property-based testing (rapid): differential against a plain negamax reference (no pruning) + metamorphic invariance across sound-switch combinations",
+   text="With every unsound heuristic off, the root value of a depth-d search must equal a 25-line plain negamax over the oracle's legal moves with the engine's leaf evaluation and the stated terminal scores, and the best move must attain it, for 4 combinations (all off, all on, 2 drawn) of the 7 sound switches per case; with quiescence on the value must be identical across the combinations. Generators include mating/stalemating nets, repetition-prone histories and clocks 94-99.",
+   note="The reference trusts DoMove/UndoMove/Evaluate/CheckRepetitions (decided by C02/C03/C10/C15). Trees in which the listed game-phase drift can occur are excluded by construction and counted. Depth <= 3-4.", ref="DESIGN.md §2 C06"),
+ "C07": dict(level="exploration", technique="property-based testing (rapid) with an instrumentation hook (build tag verif): every mate/stalemate classification of generated searches is checked against refchess",
+   text="Every node the search scores as mate or stalemate (hook at all classification sites, cross-checked against the statistics counters) must have no legal move by the oracle and be 'mate' exactly when in check, under the default configuration and drawn combinations of the pruning switches, depth 2-8; roots without legal moves must be reported as -mate / draw without a move.",
+   note="Hook verif-tagged, add-only; a classification site without the hook would show as a counter mismatch.", ref="DESIGN.md §2 C07"),
+ "C12": dict(level="exploration", technique="property-based testing (rapid): grammar-generated protocol sessions run through the real Loop() on pipes, trace invariants over time-stamped output; metamorphic fresh-vs-ucinewgame comparison",
+   text="Generated protocol-valid sessions are executed against the real protocol loop; the time-stamped output must contain exactly one bestmove per go in order (none premature for infinite/ponder, none NoMove), a readyok for every isready within 5 s also during searches, a bestmove within 2 s after stop; the handler's position must equal the oracle's replay of the position command; the configuration print-out must change in exactly the named option's field; after warm-up searches and ucinewgame the (depth, score, pv) stream and bestmove of a fixed-depth search must equal those of a fresh engine.",
+   note="Timing allowances are >= 100x the normal latencies. Scheduling is not controlled: interleavings are sampled by generated delays (0-30 ms, zero gaps) and repetition.", ref="DESIGN.md §2 C12"),
+ "C13": dict(level="exploration", technique="property-based testing (rapid) + fixed grid over the time-budget function (verif wrapper); generated searches under depth / node / movetime / searchmoves limits",
+   text="The time budget is computed for ~70k drawn and gridded parameter combinations (remaining 1 ms-3 h, increment up to 50x remaining, movestogo 0-80, all game phases, both colours) and must not exceed the remaining clock nor, repeated movestogo (or 15) times, the remaining time plus increments; depth-limited searches must complete exactly d iterations (1 for single-move roots), node-limited searches must stop within the overshoot allowance, movetime searches within movetime + 250 ms (re-confirmed), and with searchmoves (API and UCI line) the best move must be in the list.",
+   note="Timing part is few, serial cases with a generous allowance; a regression smaller than the allowance is invisible.", ref="DESIGN.md §2 C13"),
 }
 
 NOT_YET = "check not built yet in this session (work in progress; see DESIGN.md)"
